@@ -51,12 +51,19 @@ def fp_tabulate(prog, job, out, log=print):
             rec['time'] = round(rr['time'], 3)
             rec['by_solver'] = {job['solvers'][0]: rr['status']}
             out['results'].append(rec)
-    if zone_obs:
+    extras = getattr(ex, 'extras', [])
+    if zone_obs or extras:
         roots = [o['viol'] for o in zone_obs]
+        records = []
+        for e in extras:
+            for d in e['digits']:
+                if d.op != 'const' and d not in records:
+                    records.append(d)
         rep = tabulate.tabulate(ex.assumptions, roots, cvss_spec.lookup, log, use_z3=job.get('use_z3', True), workers=job.get('workers', 16),
-                                solver=job['solvers'][0], limit=job.get('cube_limit', tabulate.LIMIT), extras=[t for _, t in getattr(ex, 'extras', [])],
-                                special=job.get('_special'))
-        out['tabulation'] = {k: v for k, v in rep.items() if k != 'failures'}
+                                solver=job['solvers'][0], limit=job.get('cube_limit', tabulate.LIMIT), extras=[e['val'] for e in extras], records=records,
+                                special=(lambda rep, enum: relation_check(rep, enum, extras, len(roots), log)) if extras else None)
+        rep.pop('level_records', None)
+        out['tabulation'] = {k: v for k, v in rep.items() if k not in ('failures', 'relations')}
         out.setdefault('queries', {})
         out['queries'][job['solvers'][0]] = out['queries'].get(job['solvers'][0], 0) + rep['allsat_queries']
         out.setdefault('solver_time', {})
@@ -79,6 +86,27 @@ def fp_tabulate(prog, job, out, log=print):
                 rec['reachable'] = 'sat' if rep['cubes'] > 0 else 'unsat'
             rec['by_solver'] = {job['solvers'][0] + '+fold': rec['status']}
             out['results'].append(rec)
+        for k, rel in enumerate(rep.get('relations', []) if extras else []):
+            rec = {'index': len(ex.obligations) + k, 'kind': 'relation:' + rel['kind'], 'label': rel['name'], 'pos': '', 'fn': job['func'], 'time': rep['wall_s'],
+                   'cubes': rep['cubes'], 'classes': rel.get('classes'), 'status': rel['status'], 'why': rel.get('why'), 'values': rel.get('values')}
+            if bad and rec['status'] == 'unsat':
+                rec['status'] = 'unknown'
+                rec['errors'] = rep['inconclusive'][:5]
+            if rel.get('models') and rel['status'] == 'sat':
+                rec['pair'] = rel['models']
+                rec['relation'] = rel['kind']
+                tabs = {}
+                for m in rel['models']:
+                    for r_ in [e['val'] for e in extras]:
+                        for nm, kv in table_values(ex, r_, m).items():
+                            tabs.setdefault(nm, {}).update(kv)
+                rec['tables'] = tabs
+            if rec['status'] == 'unsat':
+                rec['reachable'] = 'sat'
+            rec['by_solver'] = {job['solvers'][0] + '+fold': rec['status']}
+            out['results'].append(rec)
+        if extras and not rep.get('relations') and not rep['inconclusive']:
+            rep['inconclusive'].append('relations not evaluated')
     out['terms'] = TM.nterms()
     return out
 
@@ -103,3 +131,181 @@ def table_values(ex, root, model):
     except KeyError:
         pass
     return need
+
+
+def _f(bits):
+    import struct
+    return struct.unpack('<d', struct.pack('<Q', bits))[0]
+
+
+def relation_check(rep, enum, extras, nroots, log):
+    """Functional / Monotone relations over the solver-enumerated cube tables.
+    value(class) = V[wkey(level-1 cube)][level-2 digits]; at most two levels."""
+    recs = rep.get('level_records', [])
+    out = []
+    rep['relations'] = out
+    if not recs:
+        return
+    if len(recs) > 2:
+        for e in extras:
+            out.append({'name': e['name'], 'kind': e['kind'], 'status': 'unknown', 'why': 'more than two staging levels'})
+        return
+    final = recs[-1]
+    first = recs[0] if len(recs) == 2 else None
+    pos = {}
+    for li, lr in enumerate(recs):
+        for p, tid in enumerate(lr['rec_terms']):
+            pos[tid] = (li, p)
+    if first is not None:
+        wkeys = {}
+        keep = first['keep'] or []
+        # W key of a level-1 cube: (kept carried values) + main outputs; level 1 has no carried values
+        for ci, widx, mainv, recv in first['rows']:
+            wkeys[ci] = tuple(mainv)
+        windex = {k: i for i, k in enumerate(final['wtuples_in'])}
+    for j, e in enumerate(extras):
+        res = {'name': e['name'], 'kind': e['kind'], 'status': 'unsat', 'classes': 0}
+        out.append(res)
+        d1 = []  # (digit position in the tuple, level, rec position) or constant
+        for k, dt in enumerate(e['digits']):
+            if dt.op == 'const':
+                d1.append(('c', TM.signed(dt.val, dt.sort)))
+            elif dt.id in pos:
+                d1.append(pos[dt.id])
+            else:
+                res['status'] = 'unknown'
+                res['why'] = 'digit %d was not recorded' % k
+                break
+        if res['status'] != 'unsat':
+            continue
+        fin_li = len(recs) - 1
+
+        def digs(li, recv):
+            o = []
+            for p in d1:
+                if p[0] == 'c':
+                    o.append(p[1])
+                elif p[0] == li:
+                    o.append(TM.signed(recv[p[1]], 64))
+                else:
+                    o.append(None)
+            return tuple(o)
+        # final table: V[widx][digits at final level] -> (value, cube)
+        V = {}
+        bad = None
+        for ci, widx, mainv, recv in final['rows']:
+            d = digs(fin_li, recv)
+            val = mainv[nroots + j]
+            row = V.setdefault(widx, {})
+            if d in row and row[d][0] != val:
+                bad = ('same class, two values', [(fin_li, row[d][1]), (fin_li, ci)], (row[d][0], val))
+            row.setdefault(d, (val, ci))
+        steps = []   # pairs of (level, cube A, cube B) to compare: B is one severity step above A (monotone) / same digits (functional)
+        radix = [0] * len(d1)
+        if first is None:
+            classes = V.get(0, {})
+            res['classes'] = len(classes)
+            if e['kind'] == 'monotone' and not bad:
+                for d in classes:
+                    for k, x in enumerate(d):
+                        radix[k] = max(radix[k], x + 1)
+                for d, (val, ci) in classes.items():
+                    for k in range(len(d)):
+                        if d1[k][0] == 'c':
+                            continue
+                        up = d[:k] + (d[k] + 1,) + d[k + 1:]
+                        if up in classes:
+                            if not (_f(classes[up][0]) >= _f(val)):
+                                bad = ('score decreases when digit %d goes %d -> %d' % (k, d[k], d[k] + 1), [(0, ci), (0, classes[up][1])], (val, classes[up][0]))
+                                break
+                        elif d[k] + 1 < radix[k]:
+                            res.setdefault('gaps', 0)
+                            res['gaps'] += 1
+                    if bad:
+                        break
+        else:
+            # level-1 classes: digits -> set of W indices
+            L1 = {}
+            for ci, widx, mainv, recv in first['rows']:
+                d = digs(0, recv)
+                w = windex.get(wkeys[ci])
+                L1.setdefault(d, {}).setdefault(w, ci)
+            res['classes'] = len(L1) * max(len(r) for r in V.values())
+            rowsig = {}
+            for w, row in V.items():
+                rowsig[w] = tuple(sorted((d, v[0]) for d, v in row.items()))
+            if not bad:
+                for d, ws in L1.items():
+                    sigs = set(rowsig.get(w) for w in ws)
+                    if len(sigs) > 1:
+                        wl = list(ws.items())
+                        bad = ('same effective class, different staged value', [(0, wl[0][1]), (0, wl[1][1])], None)
+                        break
+            if e['kind'] == 'monotone' and not bad:
+                checked = set()
+                for d, ws in L1.items():
+                    for k in range(len(d)):
+                        if d[k] is None or d1[k][0] == 'c':
+                            continue
+                        up = d[:k] + (d[k] + 1,) + d[k + 1:]
+                        if up not in L1:
+                            continue
+                        for wa, cia in ws.items():
+                            for wb, cib in L1[up].items():
+                                if (wa, wb) in checked:
+                                    continue
+                                checked.add((wa, wb))
+                                ra, rb = V.get(wa, {}), V.get(wb, {})
+                                for d2, (va, c2) in ra.items():
+                                    if d2 in rb and not (_f(rb[d2][0]) >= _f(va)):
+                                        bad = ('score decreases when digit %d goes %d -> %d' % (k, d[k], d[k] + 1), [(0, cia), (0, cib), (1, c2)], (va, rb[d2][0]))
+                                        break
+                                if bad:
+                                    break
+                            if bad:
+                                break
+                        if bad:
+                            break
+                    if bad:
+                        break
+                if not bad:
+                    for w, row in V.items():
+                        for d2, (val, ci) in row.items():
+                            for k in range(len(d2)):
+                                if d2[k] is None or d1[k][0] == 'c':
+                                    continue
+                                up = d2[:k] + (d2[k] + 1,) + d2[k + 1:]
+                                if up in row and not (_f(row[up][0]) >= _f(val)):
+                                    bad = ('score decreases when digit %d goes %d -> %d' % (k, d2[k], d2[k] + 1), [(1, ci), (1, row[up][1])], (val, row[up][0]))
+                                    break
+                            if bad:
+                                break
+                        if bad:
+                            break
+        if bad:
+            res['status'] = 'sat'
+            res['why'] = bad[0]
+            res['values'] = [(_f(v) if v is not None else None) for v in (bad[2] or ())]
+            # concrete objects for the two classes
+            models = []
+            cubes = bad[1]
+            if first is not None and len(cubes) == 3:
+                # (level-1 cube A, level-1 cube B, final cube giving the level-2 digits)
+                lr2 = recs[1]
+                ids2 = set(lr2['fterm_ids'])
+                cons2 = [c for c in lr2['cons_of'](cubes[2][1]) if c[0].id in ids2]
+                for (li, ci) in cubes[:2]:
+                    cons = recs[0]['cons_of'](ci) + cons2
+                    st, m = enum.witness(cons)
+                    models.append(m if st == 'sat' else None)
+            else:
+                for (li, ci) in cubes:
+                    st, m = enum.witness(recs[li]['cons_of'](ci))
+                    models.append(m if st == 'sat' else None)
+            if any(m is None for m in models):
+                res['status'] = 'unknown'
+                res['why'] += ' (no concrete witness pair: cubes unreachable or solver unknown)'
+            res['models'] = models
+        log('    relation %s(%s): %s over %d classes %s' % (e['kind'], e['name'], res['status'], res['classes'], res.get('why', '')))
+
+
